@@ -67,6 +67,33 @@ def run(ctx):
                    "decoded until the peer sends more (stall)  [context: " + " <- ".join(last_seg(c) for c in cx[-3:]) + "]")
     ctx.floor("R4a", "need-more (Ok(None)) constructions in stream decoders", 12, n_none)
 
+    # ---------------- R4f ----------------------------------------------------------------------
+    # need-more after bytes were taken from the stream requires recorded progress: otherwise the next call starts over at the wrong offset
+    n_prog = 0
+    for fn, evs in sorted(an.events.items()):
+        if fn not in reach:
+            continue
+        per_blk = {}
+        for ev in evs:
+            if ev[1] != "need-more-progress":
+                continue
+            blk, _, unrec, cx, sp = ev
+            if not cx or prog.bodies[cx[0]] not in stream_decs:
+                continue
+            # (a Cursor over the buffer only peeks: the stream itself is consumed by the later advance(position))
+            bad = any(o.startswith("decode:arg2") for o in unrec)
+            prev = per_blk.get(blk)
+            if prev is None or (bad and not prev[0]):
+                per_blk[blk] = (bad, sp, cx)
+        for blk, (bad, sp, cx) in sorted(per_blk.items()):
+            n_prog += 1
+            ctx.ob("R4f", fn, "need-more-after-consuming-records-progress", loc(sp), not bad,
+                   "need-more is answered either before anything was taken from the stream or after the decoder's state was advanced" if not bad else
+                   "Ok(None) is answered after bytes were removed from the stream buffer and nothing was stored in the decoder: the next call parses "
+                   "the rest of the frame as if it were its beginning (decode error or garbage for this segmentation, fine for others)  [context: "
+                   + " <- ".join(last_seg(c) for c in cx[-3:]) + "]")
+    ctx.floor("R4f", "stream decoders whose need-more returns were checked for recorded progress", 11, n_prog)
+
     # ---------------- R4b ----------------------------------------------------------------------
     n_read = 0
     for (fn, kind, ordn, s) in c07.site_rows(prog, an):
